@@ -385,7 +385,7 @@ func directed(r *runner, rng *rand.Rand, n int) {
 			}
 		}
 		class := ""
-		switch i % 7 {
+		switch i % 8 {
 		case 0: // e9c2bca: prewrite over the own pessimistic lock, another commit between start ts and for-update ts
 			class = "own-pess-prewrite"
 			// b commits k with a.s < b.c < a.f (ranks arranged by construction below)
@@ -441,6 +441,71 @@ func directed(r *runner, rng *rand.Rand, n int) {
 			add(pw, pw)
 			maybeNoise()
 			add(pw, fmt.Sprintf("cm %s %s %s", hx(k), hx(a.s), hx(a.c)), fmt.Sprintf("get %s %s -", hx(k), hx(maxTS)))
+		case 7: // nested interleaving: an older-started transaction commits ABOVE a younger transaction's record on the same key
+			// (start_old < start_T <= record_T < commit_old): the record of T is not the first row of the key
+			class = "nested"
+			base := 40 + rng.Intn(3)
+			so, st, ct, fo, co := tsOf(base), tsOf(base+2), tsOf(base+4), tsOf(base+6), tsOf(base+8)
+			cur := tsOf(base + 20)
+			finishOld := func() {
+				if rng.Intn(2) == 0 {
+					add(fmt.Sprintf("cm %s %s %s", hx(k), hx(so), hx(co)))
+				} else {
+					add(fmt.Sprintf("rl 0 0 %s %s", hx(so), hx(co)))
+				}
+			}
+			pessOld := func() { // pessimistic T_old, for-update ts above T's record
+				add(fmt.Sprintf("pl %s %s %s 3 0 0 0 0 0 1 %s:0", hx(k), hx(so), hx(fo), hx(k)))
+				if rng.Intn(3) != 0 { // else: the leftover pessimistic lock itself is committed
+					add(fmt.Sprintf("pw %s %s %s 1 0 0 %s:%s:21:n:1", hx(k), hx(so), hx(fo), []string{"P", "D", "L"}[rng.Intn(3)], hx(k)))
+				}
+			}
+			switch rng.Intn(4) {
+			case 0, 1: // T commits first
+				add(fmt.Sprintf("pw %s %s 0 1 0 0 P:%s:11:n:0", hx(k), hx(st), hx(k)))
+				if rng.Intn(2) == 0 {
+					add(fmt.Sprintf("cm %s %s %s", hx(k), hx(st), hx(ct)))
+				} else {
+					add(fmt.Sprintf("rl 0 0 %s %s", hx(st), hx(ct)))
+				}
+				maybeNoise()
+				pessOld()
+				finishOld()
+			case 2: // T is rolled back while the optimistic T_old holds the lock
+				add(fmt.Sprintf("pw %s %s 0 9 0 0 P:%s:21:n:0", hx(k), hx(so), hx(k)))
+				switch rng.Intn(3) {
+				case 0:
+					add(fmt.Sprintf("rb %s %s", hx(k), hx(st)))
+				case 1:
+					add(fmt.Sprintf("cl %s %s 0", hx(k), hx(st)))
+				case 2:
+					add(fmt.Sprintf("cs %s %s %s %s 1 0", hx(k), hx(st), hx(cur), hx(cur)))
+				}
+				maybeNoise()
+				finishOld()
+			case 3: // T is rolled back first, pessimistic T_old above
+				add(fmt.Sprintf("rb %s %s", hx(k), hx(st)))
+				pessOld()
+				finishOld()
+			}
+			probes := []string{
+				fmt.Sprintf("cm %s %s %s", hx(k), hx(st), hx(ct)),
+				fmt.Sprintf("rb %s %s", hx(k), hx(st)),
+				fmt.Sprintf("cl %s %s %s", hx(k), hx(st), hx(uint64(rng.Intn(2))*cur)),
+				fmt.Sprintf("cs %s %s %s %s %s 0", hx(k), hx(st), hx(cur), hx(cur), w.b(50)),
+				fmt.Sprintf("pw %s %s 0 1 0 0 P:%s:12:n:0", hx(k), hx(st), hx(k)),
+				fmt.Sprintf("cm %s %s %s", hx(k), hx(so), hx(co)),
+				fmt.Sprintf("rb %s %s", hx(k), hx(so)),
+				fmt.Sprintf("cs %s %s %s %s 1 0", hx(k), hx(so), hx(cur), hx(cur)),
+			}
+			for j := 0; j < 3; j++ {
+				p := probes[rng.Intn(len(probes))]
+				add(p)
+				if rng.Intn(2) == 0 {
+					add(p)
+				}
+			}
+			add(fmt.Sprintf("get %s %s -", hx(k), hx(cur)))
 		case 4: // every command twice in a row (idempotence)
 			class = "repeat"
 			f := fin{}
